@@ -41,9 +41,9 @@ var (
 	realN    = flag.Int("real", 6, "real-kernel cells to run (rotated by seed); -1: all")
 	realMiB  = flag.Int("realmb", 16, "MiB written per real-kernel cell")
 	replayS  = flag.String("replay", "", "run one simulated case: <case-seed>")
-	dialNow  = flag.Bool("dialnow-oneshot", false, "include immediate-connect dialers in ET+ONESHOT mode (known gap of the model's invariant)")
 	verbose  = flag.Bool("v", false, "print every simulated case")
 	stallSec = flag.Int("stall", 10, "seconds without progress that count as a stall (real tier)")
+	gapProbe = flag.Int("gap", 8, "also run N schedules of the directed D38 scenario (immediate-connect dial, ET+ONESHOT, first event without OUT)")
 )
 
 func main() {
@@ -59,6 +59,15 @@ func main() {
 	if *modelP != "" {
 		m = hx.StartModel(*modelP)
 		defer m.Close()
+	}
+	gap := *gapProbe
+	if gap < 0 {
+		gap = 0
+	}
+	for i := 0; i < gap; i++ { // the directed history that found D38: about two schedules in three take the bad path
+		c := simCase{Seed: int64(i), Mode: 2, Cap: 64, Origin: "dialnow", OW: []wop{{Kind: "w", N: []int{64}}},
+			Steps: []simStep{{Kind: "psend"}, {Kind: "quiesce"}, {Kind: "pread"}, {Kind: "write", Writes: []wop{{Kind: "w", N: []int{129}}}}}}
+		runSim(c, m, rep, *verbose)
 	}
 	if *replayS != "" {
 		var cs int64
